@@ -1114,6 +1114,8 @@ class World:
         L = len(data)
         if how == 'empty':
             new = b''
+        elif how == 'truncate-frac':
+            new = data[:(L * op.get('a', 0)) // max(1, op.get('b', 32))]      # a/b of the file; a == b keeps it
         elif how == 'truncate':
             new = data[:op.get('a', 0) % (L + 1)] if L else b''
         elif how == 'overwrite':
